@@ -61,6 +61,26 @@ def check(ctx):
     params = set(ct.positional_params[1:])
     bparam, cparam = ct.positional_params[1], ct.positional_params[2]
 
+    # ---------------------------------------------------------------- C18.0' every load works on its own tree
+    # _process_includes writes merged sub-trees into the tree it was handed: that is invisible only because every loads() parses
+    # a new tree.  A parser result that is memoised (functools.lru_cache / cache on a function reachable from a format's loads) is
+    # one object shared by all loads of the same bytes -- the second load sees the first one's merges.
+    CF_ = model.cls("ConfigFormat")
+    roots_ = [c_.methods["loads"] for c_ in CF_.subclasses(strict=True) if "loads" in c_.methods]
+    cached = []
+    for f_ in an.reachable_fns(roots_):
+        if isinstance(f_.node, ast.FunctionDef):
+            for d_ in f_.node.decorator_list:
+                txt = ast.unparse(d_.func if isinstance(d_, ast.Call) else d_)
+                if txt.split(".")[-1] in ("lru_cache", "cache", "cached_property", "memoize"):
+                    cached.append((f_, d_))
+    for f_, d_ in cached:
+        ctx.ob("parse.fresh-tree", f_, d_, False,
+               "%s is memoised and reachable from a format's loads: the parsed tree is one object shared by every load of the same bytes, and "
+               "the include processing writes into it" % f_.qualname, node=d_)
+    if not cached:
+        ctx.ob("parse.fresh-tree", CF_, "no memoised function below ConfigFormat.loads", True, "every loads() parses a new tree", nontrivial=False)
+
     # ---------------------------------------------------------------- C18.0 every include implementation merges deeply
     # (a sibling of IncludeField -- a field that includes several files -- combines parsed trees with combine_trees as well: a
     # parsed document handed to dict.update / {**a, **b} / a | b replaces nested maps wholesale)
